@@ -236,7 +236,8 @@ Ltac pu_shape pk c b p fuel :=
       unfold pu_step, digit, lower; rewrite ?wrap8_mod, ?wrap64_mod; cbv zeta;
       (* the four comparisons that classify the digit first: the 8-bit digit arithmetic of the code is then exact *)
       destruct (Z.leb_spec 48 ch), (Z.leb_spec ch 57), (Z.leb_spec 97 (Z.lor ch 32)), (Z.leb_spec (Z.lor ch 32) 122);
-      cbn [andb orb negb]; small_mods; repeat break_if; try reflexivity; zb; try lia; try (exfalso; lia)
+      cbn [andb orb negb]; step_code; small_mods; repeat first [ progress step_code | progress cbn [andb orb negb] | rewrite wrap8_mod | rewrite wrap64_mod | progress small_mods | break_if ];
+      try reflexivity; zb; try lia; try (exfalso; lia)
     | assert (H2 : forall n, iter1 c b p (pk n (zlen s)) = Ret (inr (inl (pk n (zlen s)))));
       [ let n := fresh "n" in intros n; iter_open; rewrite ?Z.ltb_irrefl; reflexivity
       | let E := fresh "E" in
@@ -395,7 +396,7 @@ Ltac upper_shape pk c b p fuel :=
 (* dst holds bytes (upper is exact on bytes only); for every fuel above its length *)
 Theorem code_toUpper : forall fuel dst, bytes dst -> (length dst < fuel)%nat -> g_toUpper fuel dst = Ret (to_upper dst).
 Proof.
-  intros fuel dst Hb Hf. unfold g_toUpper. set (K1 := g_upper). repeat autounfold with go2v. subst K1. step_code.
+  intros fuel dst Hb Hf. unfold g_toUpper. repeat autounfold with go2v_aux. step_code.
   match goal with |- match while _ ?c ?b ?p ?s0 with _ => _ end = _ =>
     first [ solve [upper_shape (fun (i : Z) (d : list Z) => (i, d)) c b p fuel]
           | solve [upper_shape (fun (i : Z) (d : list Z) => (d, i)) c b p fuel] ]
